@@ -149,7 +149,8 @@ def clouds(draw, r_km, m_s=None, n_sets=2, min_points=1, max_points=40,
     allow_far   some members are placed around the antipode of their centre
     sub_second  times get a millisecond part
     tile        None or {"copies": (lo, hi)}: every set is repeated
-                lo..hi times (drawn per set) with a shared stride / rotation;
+                lo..hi times (drawn per set; a list of (lo, hi) gives every
+                set its own range) with a shared stride / rotation;
                 "sparse": True keeps the stride >= m_s / 4
     """
     n_clusters = draw(st.one_of(st.integers(1, min(2, max_clusters)),
@@ -179,7 +180,9 @@ def clouds(draw, r_km, m_s=None, n_sets=2, min_points=1, max_points=40,
         member_sets.append(members)
     tiling = None
     if tile is not None:
-        lo_c, hi_c = tile["copies"]
+        ranges = tile["copies"]
+        if not isinstance(ranges[0], (tuple, list)):
+            ranges = [ranges] * n_sets
         if m_s is None:
             stride = 0
         else:
@@ -195,7 +198,7 @@ def clouds(draw, r_km, m_s=None, n_sets=2, min_points=1, max_points=40,
         dlon = draw(st.sampled_from(
             [0.0, 0.0, 0.25 * ang, ang, 2.5 * ang, 10.0]))
         tiling = {
-            "copies": [draw(st.integers(lo_c, hi_c)) for _ in range(n_sets)],
+            "copies": [draw(st.integers(lo_c, hi_c)) for lo_c, hi_c in ranges],
             "phase": [draw(st.integers(0, 2)) for _ in range(n_sets)],
             "stride_ms": stride * 1000, "dlon": dlon}
     return expand(centres, member_sets, r_km, metric, tiling)
